@@ -4,6 +4,7 @@ package checks
 // detector) and the same results as a sequential execution.
 
 import (
+	"encoding/base64"
 	"bytes"
 	"crypto/ecdsa"
 	"crypto/elliptic"
@@ -173,6 +174,23 @@ func buildPool(sp c17Spec) (*c17Pool, error) {
 	// of claims is embedded BY POINTER and absent, with pointer-receiver
 	// codec methods - the shared object itself reaches the encoding helpers,
 	// and no goroutine has encoded it before the scripts start
+	// ... a claims-set decoded (without validation) from a token whose
+	// component array has a null entry in the middle; and text forms (base64,
+	// base64url) of a token among the shared COSE inputs - a byte slice several
+	// goroutines hand to the decoders at once
+	for v := 0; v < 2; v++ {
+		hm := baseValid([]Prof{P2, P1}[v], 1)
+		if len(hm.Comps) >= 2 {
+			hm.Comps = []*MComp{hm.Comps[0], {NilEntry: true}, hm.Comps[1]}
+			if c, err := psatoken.DecodeClaimsFromCBOR(hm.WireBytes()); err == nil {
+				p.claims = append(p.claims, c)
+			}
+		}
+	}
+	if len(p.coseBuf) > 0 {
+		p.coseBuf = append(p.coseBuf, []byte(base64.StdEncoding.EncodeToString(p.coseBuf[0])), []byte(base64.RawURLEncoding.EncodeToString(p.coseBuf[0])))
+		p.coseKey = append(p.coseKey, p.coseKey[0], p.coseKey[0])
+	}
 	for v := 0; v < 2; v++ {
 		nm := baseValid(P1, v)
 		nm.Comps, nm.NoMeas = nil, u64p(1)
@@ -725,7 +743,7 @@ func TestC17_Concurrent(t *testing.T) {
 				// every goroutine STARTS by decoding the same token (right
 				// behind the barrier, so the decodes overlap) and changing
 				// its own result
-				scripts[g] = append([]c17Op{{"slow-codec", g % 2, 0}, {"dec-odd-profile", g % 4, g % 3}, {"dec-nested", 0, g % 2}, {"dec-mutate", 0, g % 10}, {"dec-mutate", 0, (g + 3) % 10}}, scripts[g]...)
+				scripts[g] = append([]c17Op{{"slow-codec", g % 2, 0}, {"dec-odd-profile", g % 4, g % 3}, {"dec-nested", 0, g % 2}, {"dec-mutate", 0, g % 10}, {"dec-mutate", 0, (g + 3) % 10}, {"dec-mutate", -1, g % 10}, {"dec-mutate", -2, g % 7}}, scripts[g]...)
 			}
 			progSerial++
 			sp.Synth = progSerial*1000 + os.Getpid()%1000
